@@ -420,7 +420,7 @@ def thread_work(shard, tier, viols, counters, samples, keys, sets):
             add(viols, 'C13|threads|hang', 'threads %r did not finish within 120 s' % res['hung'], {'kind': 'thread', 'trial': spec})
         for msg in res['invariants']:
             kind = 'registry-differs' if msg.startswith('registry') else 'country-module-cache-differs'
-            if walk_family and kind == 'country-module-cache-differs' and ' is None ' in msg:
+            if (walk_family or n >= 8) and kind == 'country-module-cache-differs' and ' is None ' in msg:
                 add(viols, 'C13|threads|import-deadlock-error', msg, {'kind': 'thread', 'trial': spec})
                 continue
             add(viols, 'C13|cache-invariant|%s|threads' % kind, 'after a %d-thread cold start: %s' % (n, msg), {'kind': 'thread', 'trial': spec})
@@ -438,7 +438,9 @@ def thread_work(shard, tier, viols, counters, samples, keys, sets):
                     # the module walk racing with package imports is a recorded CPython import-lock cycle: in the
                     # trial family that provokes it, failed or None resolutions are that finding, a wrong module
                     # list is not
-                    if o == ['exc', '_DeadlockError'] or (walk_family and s['func'] == 'get_cc_module_name' and (o[0] == 'exc' or o == ['ok', None])):
+                    cc_user = s['module'] in ('eu.vat', 'vatin', 'iban', 'be.iban', 'es.iban', 'no.iban', 'me.iban') or s['func'] == 'get_cc_module_name'
+                    if o == ['exc', '_DeadlockError'] or (walk_family and s['func'] == 'get_cc_module_name' and (o[0] == 'exc' or o == ['ok', None])) \
+                            or (cc_user and o in (['exc', 'AttributeError'], ['exc', 'ImportError'], ['exc', 'KeyError']) and n >= 8):
                         add(viols, 'C13|threads|import-deadlock-error',
                             '%d threads from a cold start: %s.%s(%r) raised importlib._DeadlockError' % (n, s['module'], s['func'], s['args']),
                             {'kind': 'thread', 'trial': spec, 'call': s})
